@@ -52,7 +52,7 @@ func memoizerCheck(c *core.Ctx, p *packages.Package, fd *ast.FuncDecl) (isMemo b
 		return true
 	})
 	if once == nil {
-		return false, nil
+		return memoCellCheck(c, p, fd)
 	}
 	var thunk types.Object
 	for _, fl := range fd.Type.Params.List {
@@ -321,12 +321,27 @@ func Tail(c *core.Ctx, rule string, pkgs []*packages.Package) {
 				}
 				// literals that are arguments of lazy.TailCall*/Call
 				deferredLits := map[*ast.FuncLit]bool{}
+				deferredSelf := map[*ast.Ident]bool{}
 				ast.Inspect(fd.Body, func(x ast.Node) bool {
 					if call, ok := x.(*ast.CallExpr); ok {
 						if callee := calleeOf(info, call); callee != nil && callee.Pkg() != nil && callee.Pkg().Path() == core.ModPath+"/lazy" {
 							for _, a := range call.Args {
 								if fl, ok := ast.Unparen(a).(*ast.FuncLit); ok {
 									deferredLits[fl] = true
+								}
+								// the function itself handed over as a value: lazy.TailCall3(FoldRight[A, B], tail, zero, f)
+								fv := ast.Unparen(a)
+								switch ix := fv.(type) {
+								case *ast.IndexExpr:
+									fv = ix.X
+								case *ast.IndexListExpr:
+									fv = ix.X
+								}
+								if id, ok := fv.(*ast.Ident); ok {
+									deferredSelf[id] = true
+								}
+								if se, ok := fv.(*ast.SelectorExpr); ok {
+									deferredSelf[se.Sel] = true
 								}
 							}
 						}
@@ -347,7 +362,7 @@ func Tail(c *core.Ctx, rule string, pkgs []*packages.Package) {
 						if id, ok := x.(*ast.Ident); ok {
 							if o, ok := info.Uses[id].(*types.Func); ok && o.Origin() == fn {
 								self++
-								if !deferred {
+								if !deferred && !deferredSelf[id] {
 									bad++
 								}
 							}
@@ -404,4 +419,180 @@ func Tail(c *core.Ctx, rule string, pkgs []*packages.Package) {
 		}
 	}
 	c.Floor(rule, "self-referential Eval-returning functions", n, 3)
+}
+
+// memoCellCheck recognises the struct form of a memoiser:
+//
+//	type cell struct { once sync.Once; f func() T; ret T }
+//	func (r *cell) compute() { r.ret = r.f() }
+//	func (r *cell) get() T  { r.once.Do(r.compute); return r.ret }
+//	func Memoize(f func() T) func() T { c := &cell{f: f}; return c.get }
+//
+// The cell is allocated per memoised value, the returned method runs once.Do first, and the thunk field is called only
+// from what once.Do runs.
+func memoCellCheck(c *core.Ctx, p *packages.Package, fd *ast.FuncDecl) (bool, []string) {
+	info := p.TypesInfo
+	var thunk types.Object
+	for _, fl := range fd.Type.Params.List {
+		for _, nm := range fl.Names {
+			if o := info.Defs[nm]; o != nil && isThunkType(o.Type()) {
+				thunk = o
+			}
+		}
+	}
+	if thunk == nil {
+		return false, nil
+	}
+	// composite literal of a struct with a sync.Once field and a field initialised with the thunk
+	var cellT *types.Named
+	thunkField, onceField := "", ""
+	ast.Inspect(fd.Body, func(x ast.Node) bool {
+		cl, ok := x.(*ast.CompositeLit)
+		if !ok {
+			return true
+		}
+		tv, ok := info.Types[cl]
+		if !ok {
+			return true
+		}
+		nt := namedOf(tv.Type)
+		if nt == nil {
+			return true
+		}
+		st, ok := nt.Underlying().(*types.Struct)
+		if !ok {
+			return true
+		}
+		of := ""
+		for i := 0; i < st.NumFields(); i++ {
+			if ft := namedOf(st.Field(i).Type()); ft != nil && ft.Obj().Pkg() != nil && ft.Obj().Pkg().Path() == "sync" && ft.Obj().Name() == "Once" {
+				of = st.Field(i).Name()
+			}
+		}
+		if of == "" {
+			return true
+		}
+		for _, e := range cl.Elts {
+			if kv, ok := e.(*ast.KeyValueExpr); ok {
+				if objOf(info, kv.Value) == thunk {
+					if id, ok := kv.Key.(*ast.Ident); ok {
+						cellT, thunkField, onceField = nt, id.Name, of
+					}
+				}
+			}
+		}
+		return true
+	})
+	if cellT == nil {
+		return false, nil
+	}
+	var problems []string
+	// thunk itself referenced exactly once (in the literal)
+	refs := 0
+	ast.Inspect(fd.Body, func(x ast.Node) bool {
+		if id, ok := x.(*ast.Ident); ok && info.Uses[id] == thunk {
+			refs++
+		}
+		return true
+	})
+	if refs != 1 {
+		problems = append(problems, "the computation "+thunk.Name()+" is referenced "+itoa(refs)+" time(s) outside the memo cell")
+	}
+	// returned method value
+	var getName string
+	for _, st := range fd.Body.List {
+		if r, ok := st.(*ast.ReturnStmt); ok && len(r.Results) == 1 {
+			if sel, ok := ast.Unparen(r.Results[0]).(*ast.SelectorExpr); ok {
+				if s := info.Selections[sel]; s != nil && s.Kind() == types.MethodVal {
+					getName = sel.Sel.Name
+				}
+			}
+		}
+	}
+	if getName == "" {
+		return true, append(problems, "does not return a method value of the memo cell")
+	}
+	// methods of the cell type
+	methods := map[string]*ast.FuncDecl{}
+	for _, f := range p.Syntax {
+		for _, d := range f.Decls {
+			md, ok := d.(*ast.FuncDecl)
+			if ok && md.Recv != nil && md.Body != nil && core.RecvTypeName(md.Recv.List[0].Type) == cellT.Obj().Name() {
+				methods[md.Name.Name] = md
+			}
+		}
+	}
+	get := methods[getName]
+	if get == nil || len(get.Recv.List[0].Names) != 1 {
+		return true, append(problems, "the returned method is not declared on the memo cell")
+	}
+	if _, isPtr := ast.Unparen(get.Recv.List[0].Type).(*ast.StarExpr); !isPtr {
+		problems = append(problems, "the returned method has a value receiver: every call copies the sync.Once and re-runs the computation")
+	}
+	rname := get.Recv.List[0].Names[0].Name
+	// first statement: r.once.Do(X)
+	var doArg ast.Expr
+	if len(get.Body.List) > 0 {
+		if es, ok := get.Body.List[0].(*ast.ExprStmt); ok {
+			if call, ok := ast.Unparen(es.X).(*ast.CallExpr); ok && len(call.Args) == 1 {
+				if sel, ok := ast.Unparen(call.Fun).(*ast.SelectorExpr); ok && sel.Sel.Name == "Do" {
+					if inner, ok := ast.Unparen(sel.X).(*ast.SelectorExpr); ok && inner.Sel.Name == onceField {
+						if id, ok := ast.Unparen(inner.X).(*ast.Ident); ok && id.Name == rname {
+							doArg = call.Args[0]
+						}
+					}
+				}
+			}
+		}
+	}
+	if doArg == nil {
+		return true, append(problems, "the returned method does not start with "+rname+"."+onceField+".Do(…): the cached value can be read before it is computed, or the computation is not guarded")
+	}
+	// what once.Do runs: a literal or a method value of the cell
+	var runBody *ast.BlockStmt
+	runName := ""
+	if fl, ok := ast.Unparen(doArg).(*ast.FuncLit); ok {
+		runBody = fl.Body
+	} else if sel, ok := ast.Unparen(doArg).(*ast.SelectorExpr); ok {
+		if md := methods[sel.Sel.Name]; md != nil {
+			runBody, runName = md.Body, sel.Sel.Name
+		}
+	}
+	if runBody == nil {
+		return true, append(problems, "once.Do is not handed a literal or a method of the memo cell")
+	}
+	callsThunk := func(body ast.Node) int {
+		k := 0
+		ast.Inspect(body, func(x ast.Node) bool {
+			if sel, ok := x.(*ast.SelectorExpr); ok && sel.Sel.Name == thunkField {
+				if tv, ok := info.Types[sel.X]; ok {
+					t := tv.Type
+					if pt, ok := t.(*types.Pointer); ok {
+						t = pt.Elem()
+					}
+					if nt := namedOf(t); nt != nil && nt.Obj() == cellT.Obj() {
+						k++
+					}
+				}
+			}
+			return true
+		})
+		return k
+	}
+	if callsThunk(runBody) != 1 {
+		problems = append(problems, "what once.Do runs does not call the stored computation exactly once")
+	}
+	for name, md := range methods {
+		if name == runName {
+			continue
+		}
+		body := ast.Node(md.Body)
+		if name == getName && runName == "" {
+			continue // the literal lives inside get
+		}
+		if callsThunk(body) > 0 {
+			problems = append(problems, "the stored computation is also used in "+cellT.Obj().Name()+"."+name+", outside the once guard")
+		}
+	}
+	return true, problems
 }
